@@ -231,6 +231,11 @@ async fn run_sess(rest: &str) -> String {
     let scope = ractor::pg::DEFAULT_SCOPE.to_string();
     let mut sess = VerifRemoteSession::new(3).await;
     sess.sync();
+    // remote pid of index q; q = 77 is special: a peer actor whose pid NUMBER equals the local pid of this
+    // session's transport actor (possible whenever the peer is another process: pids are per-process counters)
+    let tpid = sess.transport_pid();
+    let rpid = move |q: u64| if q == 77 { tpid } else { REMOTE_BASE + q };
+    let rshow = move |pid: u64| if pid == tpid { REMOTE_BASE + 77 } else { pid };
     let log: Arc<Mutex<Vec<String>>> = Arc::new(Mutex::new(Vec::new()));
     let mut probes: HashMap<u64, ActorCell> = HashMap::new();
     let mut pid_idx: HashMap<u64, u64> = HashMap::new();
@@ -335,13 +340,13 @@ async fn run_sess(rest: &str) -> String {
                     .await;
             }
             "fspawn" => {
-                sess.receive(VFrame::Spawn(vec![REMOTE_BASE + u(w[1])])).await;
+                sess.receive(VFrame::Spawn(vec![rpid(u(w[1]))])).await;
             }
             "fterm" => {
-                sess.receive(VFrame::Terminate(vec![REMOTE_BASE + u(w[1])])).await;
+                sess.receive(VFrame::Terminate(vec![rpid(u(w[1]))])).await;
             }
             "fjoin" | "fleave" => {
-                let (g, q) = (u(w[1]), REMOTE_BASE + u(w[2]));
+                let (g, q) = (u(w[1]), rpid(u(w[2])));
                 if !groups_used.contains(&g) {
                     groups_used.push(g);
                 }
@@ -353,10 +358,10 @@ async fn run_sess(rest: &str) -> String {
                 sess.receive(f).await;
             }
             "freply" => {
-                sess.receive(VFrame::Reply { to: REMOTE_BASE + u(w[1]), tag: u(w[2]), what: bytes(w[3]) }).await;
+                sess.receive(VFrame::Reply { to: rpid(u(w[1])), tag: u(w[2]), what: bytes(w[3]) }).await;
             }
             "send" | "scall" => {
-                let q = REMOTE_BASE + u(w[1]);
+                let q = rpid(u(w[1]));
                 for (pid, cell) in sess.proxies() {
                     handles.insert(pid, cell);
                 }
@@ -397,10 +402,10 @@ async fn run_sess(rest: &str) -> String {
         for f in sess.take_sent() {
             match f {
                 VFrame::Cast { to, variant, what } => {
-                    wire.push(format!("WMsg {} 0 (mkMsg false {} {})", idx_of(&pid_idx, to), variant, coq_bytes(&what)))
+                    wire.push(format!("WMsg {} 0 (mkMsg false {} {})", rshow(idx_of(&pid_idx, to)), variant, coq_bytes(&what)))
                 }
                 VFrame::Call { to, tag, variant, what, .. } => {
-                    wire.push(format!("WMsg {} {} (mkMsg true {} {})", idx_of(&pid_idx, to), tag, variant, coq_bytes(&what)))
+                    wire.push(format!("WMsg {} {} (mkMsg true {} {})", rshow(idx_of(&pid_idx, to)), tag, variant, coq_bytes(&what)))
                 }
                 VFrame::Reply { to, tag, what } => wire.push(format!("WReply {} {} {}", idx_of(&pid_idx, to), tag, coq_bytes(&what))),
                 VFrame::Spawn(p) => p.iter().for_each(|x| wire.push(format!("WSpawn {}", idx_of(&pid_idx, *x)))),
@@ -435,7 +440,7 @@ async fn run_sess(rest: &str) -> String {
         let live: HashMap<u64, ActorCell> = sess.proxies().into_iter().collect();
         let mut px: Vec<String> = Vec::new();
         for q in &xs {
-            let pid = REMOTE_BASE + q;
+            let pid = rpid(*q);
             let alive = live.get(&pid).map(|c| c.get_status() < ActorStatus::Stopping).unwrap_or(false);
             let mut gs: Vec<u64> = Vec::new();
             // membership is judged on the last handle seen for this pid (also after it stopped)
@@ -448,7 +453,7 @@ async fn run_sess(rest: &str) -> String {
                 }
             }
             gs.sort();
-            px.push(format!("({}, {}, {})", pid, coq_bool(alive), coq_nums(gs)));
+            px.push(format!("({}, {}, {})", rshow(pid), coq_bool(alive), coq_nums(gs)));
         }
         for (pid, cell) in live {
             handles.insert(pid, cell);
